@@ -322,8 +322,11 @@ def _semantic(run, truth, key, ref_log2, ref_spread, sexes, male_ref, correction
         wrong = [(sid, sexes.get(sid), tx) for sid, tx in truth["is_xx"].items() if sexes.get(sid) is not None and bool(sexes.get(sid)) != tx]
         if wrong:
             return run.violate(mon, "sample-sex-inferred-wrong", f"(sample, inferred is_xx, true is_xx): {wrong[:3]}", wit)
-        if any(sexes.get(sid) is None for sid in truth["is_xx"]):
-            return run.ood(mon, "sex-not-inferable")
+        missing = [sid for sid in truth["is_xx"] if sexes.get(sid) is None]
+        if missing:
+            # every generated cohort with inferred sexes holds >= 45 chrX bins at the level of the sample's sex in at least one of its files
+            return run.violate(mon, "sample-sex-not-inferred", f"no sex was inferred for {missing[:3]} although their files hold chrX bins at the expected level "
+                               f"(the pooled profile then treats them as male)", wit)
     cls = {k: chrom_class(k[0]) for k in key}
     if truth["kind"] == "depth-only" and not corrections:
         # normals that differ only in depth reproduce their common profile, spread ~ 0
